@@ -13,7 +13,7 @@ use serde::{Deserialize, Serialize};
 pub fn def() -> PropDef {
     PropDef {
         id: "C17",
-        rule: "generated histories on one encoder or decoder of every family x engine: a first configuration, then 1..6 steps, each a reset (or into_parts -> new(Some(work)) into another family/engine) to a generated target followed by complete rounds (adds, encode/decode, results read through the borrowing accessors, result dropped). A counting global allocator records every allocation and growing reallocation made by the thread inside the measured region 'reset/new-with-work + adds + encode/decode + read + drop'. need(cfg) is *measured* on a freshly built object of the same family (the sizes of everything its constructor allocates, engine excluded). Every history is executed at three scales: as generated, with every shard size x3, and with every count x2. oracle (metamorphic): in every region whose target fits (need(target) <= the element-wise maximum need over the object's past, at both scales) and in every second or later round of a configuration, the number of bytes allocated must be the same at both scales, i.e. nothing that is allocated there may grow with the shard size or with the counts (a fixed-size scratch buffer is not shard-proportional and is tolerated; it is reported in the class histogram). Every measured buffer is >= 16 KiB. Part big_resets: reset-only sawtooth histories (largest configuration first, then fractions of it) whose largest working space is drawn log-uniformly from 16 KiB to 512 MiB (quick) / 4 GiB (thorough), with a complete round (result read and dropped) after every reset to a small configuration, executed as generated and with doubled shard sizes, same oracle (byte thresholds in fast paths are invisible to small configurations). non-trivial: target differs from the previous configuration and fits; distinct by full case",
+        rule: "generated histories on one encoder or decoder of every family x engine: a first configuration, then 1..6 steps, each a reset (or into_parts -> new(Some(work)) into another family/engine) to a generated target followed by complete rounds (adds, encode/decode, results read through the borrowing accessors, result dropped). A counting global allocator records every allocation and growing reallocation made by the thread inside the measured region 'reset/new-with-work + adds + encode/decode + read + drop'. need(cfg) is *measured* on a freshly built object of the same family (the sizes of everything its constructor allocates, engine excluded). Every history is executed at three scales: as generated, with every shard size x3, and with every count x2. oracle (metamorphic): in every region whose target fits (need(target) <= the element-wise maximum need over the object's past, at both scales) and in every second or later round of a configuration, the number of bytes allocated must be the same at both scales, i.e. nothing that is allocated there may grow with the shard size or with the counts (a fixed-size scratch buffer is not shard-proportional and is tolerated; it is reported in the class histogram). Every measured buffer is >= 16 KiB. Part big_resets: reset-only sawtooth histories (largest configuration first, then fractions of it) whose largest working space is drawn log-uniformly from 16 KiB to 512 MiB (quick) / 4 GiB (thorough), with a complete round (result read and dropped) after every reset to a small configuration, executed as generated and with doubled shard sizes, same oracle (byte thresholds in fast paths are invisible to small configurations). Part long_runs: one object built for a small configuration, then 1..400 (one case in thirteen: 2100 quick / 66000 thorough) steps measured as ONE region - complete rounds only, fitting resets only (cycling through 1..3 smaller configurations) or reset + round - executed as generated and with tripled shard sizes: the bytes allocated during the whole run must not grow (allocations that happen only every N-th round or at the N-th consecutive reset). non-trivial: target differs from the previous configuration and fits; distinct by full case",
         assumptions: &[
             "an object holds at least the maximum it ever needed (Vec never shrinks); capacity may be larger, which only makes the check claim 'fits' less often than true",
             "all lookup tables and engines are initialised before measuring",
@@ -66,7 +66,108 @@ fn parts() -> Vec<Box<dyn PartDyn>> {
     vec![
         Box::new(GenPart { name: "alloc", quick: 1_000, thorough: 100_000, shrink_iters: 400, strat: strategy, check }),
         Box::new(GenPart { name: "big_resets", quick: 16, thorough: 150, shrink_iters: 8, strat: big_strategy, check: check_big }),
+        Box::new(GenPart { name: "long_runs", quick: 300, thorough: 4_000, shrink_iters: 40, strat: long_strategy, check: check_long }),
     ]
+}
+
+// ----------------------------------------------------------------------
+// long runs on one object: tens to ~70 000 steps (complete rounds, resets that fit, or both) measured as ONE region.
+// An allocation that happens only every N-th round or at the N-th consecutive reset (amortised re-sizing,
+// "give memory back" heuristics, periodic compaction) is invisible to histories of a few steps.
+
+#[derive(Clone, Debug, PartialEq, Eq, Hash, Serialize, Deserialize)]
+pub struct LongAlloc {
+    pub dec: bool,
+    pub kind: Kind,
+    pub eng: Eng,
+    /// the configuration the object is built for (before scaling)
+    pub top: (usize, usize, usize),
+    /// configurations the steps cycle through, each no larger than `top` in every component
+    pub small: Vec<(usize, usize, usize)>,
+    pub n: u32,
+    /// 0: rounds on `top` only; 1: resets only; 2: reset + complete round
+    pub mode: u8,
+}
+
+fn long_strategy(t: Tier) -> BoxedStrategy<LongAlloc> {
+    let n = prop_oneof![
+        4 => 20u32..=80,
+        5 => 1u32..=400,
+        3 => (5u32..=10, 0u32..5).prop_map(|(a, d)| (1u32 << a) + d - 2),
+        1 => Just(t.pick(2_100u32, 66_000u32)),
+    ];
+    (any::<bool>(), gen::kind_any(), any::<u8>(), (2usize..=12, 2usize..=12, (512usize..=3072).prop_map(|h| h * 2)), prop::collection::vec((any::<u16>(), any::<u16>(), any::<u16>()), 1..=3), n, 0u8..3)
+        .prop_map(|(dec, kind, eraw, top, raw, n, mode)| {
+            let fast: Vec<Eng> = [Eng::NoSimd, Eng::Ssse3, Eng::Avx2, Eng::Default].iter().copied().filter(|e| e.available()).collect();
+            let eng = if kind == Kind::Rs { Eng::Default } else { fast[(eraw as usize * fast.len()) >> 8] };
+            let small = raw
+                .into_iter()
+                .map(|(a, b, c)| (1 + gen::idx_map(a, top.0 - 1), 1 + gen::idx_map(b, top.1 - 1), 2 + gen::idx_map(c, (top.2 - 2) / 2) * 2))
+                .collect();
+            // very long runs: tiny shards
+            let top = if n > 5000 { (top.0.min(3), top.1.min(3), top.2) } else { top };
+            LongAlloc { dec, kind, eng, top, small, n, mode }
+        })
+        .boxed()
+}
+
+fn long_execute(c: &LongAlloc, bs: usize) -> Result<(Seen, u32), crate::runner::Fail> {
+    let top = Cfg { k: c.top.0, r: c.top.1, b: c.top.2 * bs };
+    let held = need(c.dec, c.kind, c.eng, top)?;
+    let mut obj = Obj::make(c.dec, c.kind, c.eng, top).map_err(|e| format!("construction failed: {e:?}"))?;
+    let top_inp = inputs(c.dec, top, 7);
+    run_round(&mut obj, &top_inp)?;
+    // the targets, those that fit (measured need), with their prepared inputs
+    let mut targets = Vec::new();
+    for &(k, r, b) in &c.small {
+        let t = Cfg { k: k.min(top.k), r: r.min(top.r), b: (b * bs).min(top.b) };
+        if fits_in(&need(c.dec, c.kind, c.eng, t)?, &held) {
+            targets.push((t, inputs(c.dec, t, 11)));
+        }
+    }
+    if targets.is_empty() {
+        targets.push((top, inputs(c.dec, top, 11)));
+    }
+    let steps = c.n;
+    let (res, seen) = measure(|| -> Result<u64, String> {
+        let mut d = 0u64;
+        for i in 0..steps {
+            if c.mode == 0 {
+                d ^= run_round(&mut obj, &top_inp)?;
+                continue;
+            }
+            let (t, inp) = &targets[i as usize % targets.len()];
+            let out = obj.apply(&crate::history::Call::Reset(t.k, t.r, t.b))?;
+            if !out.is_ok() {
+                return Err(format!("reset #{i} to supported {t:?} failed: {}", out.brief()));
+            }
+            if c.mode == 2 {
+                d ^= run_round(&mut obj, inp)?;
+            }
+        }
+        Ok(d)
+    });
+    res?;
+    Ok((seen, targets.len() as u32))
+}
+
+fn check_long(c: &LongAlloc, st: &mut Stats) -> CheckResult {
+    warm_tables();
+    let (a, _) = long_execute(c, 1)?;
+    let (b, _) = long_execute(c, 3)?;
+    if b.bytes > a.bytes {
+        fail!(
+            "{} steps ({}) on one {} that already owns its working space ({} {}, built for {:?}, every step fits): {} bytes are allocated during the run as generated and {} bytes when every shard size is tripled (largest single allocation {} -> {}): memory proportional to the shard size is allocated again",
+            c.n, ["complete rounds", "resets", "reset + complete round"][c.mode as usize % 3], if c.dec { "decoder" } else { "encoder" }, c.kind.name(), c.eng.name(), c.top, a.bytes, b.bytes, a.max, b.max
+        );
+    }
+    st.classf("steps_log2", 32 - c.n.leading_zeros());
+    st.classf("mode", ["rounds", "resets", "reset+round"][c.mode as usize % 3]);
+    st.classf("run_allocated_fixed_bytes", a.bytes > 0);
+    if c.n >= 32 {
+        st.nontrivial_case("long_runs", c);
+    }
+    Ok(())
 }
 
 // ----------------------------------------------------------------------
